@@ -127,6 +127,28 @@ def check_case(case, ctx=None):
     m = gfi_hist.trees_equal(tu2.get_choices(), tu.get_choices()) or gfi_hist.trees_equal(wu2, wu)
     if m:
         raise Violation("closure-update:vs-edit", m, case)
+    # a closure storing DIFFERENT arguments than the trace was made with: every method that takes a trace
+    # must use the closure's stored arguments (EmptyRequest / Regenerate-of-nothing have no-change fast paths)
+    if variant in ("closure", "partial_apply") and len(stored) > 0 and not kw:
+        from genjax import EmptyRequest, Regenerate, Selection
+
+        st2_vals = case["newextra"][: len(stored)]
+        stored2 = tuple(jnp.asarray(a, dtype=jnp.float32) for a in st2_vals)
+        obj2 = gf(*stored2) if variant == "closure" else gf.partial_apply(*stored2)
+        full2 = list(st2_vals) + list(args[len(stored):])
+        n2 = tuple(np.float32(a) for a in full2)
+        ad2 = tuple(Diff.no_change(x) for x in extra)
+        regen_ok = all(k_.startswith("dist:") or k_ in ("static", "scan", "dimap") for k_ in gfi_strat.node_kinds(node))
+        reqs = [("update-empty", Update(gfi.build_chm({}, "or")))] + ([("regenerate-none", Regenerate(Selection.none()))] if regen_ok else [])
+        for nm, rq in reqs:
+            t2, w2, _rd2, _b2 = obj2.edit(k2, ti, rq, ad2)
+            m_asg = gfi_hist.model_after_update(node, run_i.assignment(), {})
+            run_2, fresh2 = gfi.check_trace_against_model(t2, node, n2, m_asg, f"closure-other-stored:{nm}:", case, Violation, allow_fresh=True)
+            if not fresh2:
+                e2 = run_2.score() - run_i.score()
+                if not gfi.close(gfi.fval(w2), e2, gfi.score_tol(run_2, len(run_i.terms))):
+                    raise Violation(f"closure-other-stored:{nm}:weight", f"weight {gfi.fval(w2)!r} != new score - old score {e2!r} (closure stores {st2_vals}, trace was made with {args[:len(stored)]})", case)
+        classes.append("closure-with-other-stored-args")
     # project
     if "mask" not in gfi_strat.node_kinds(node):
         term = gfi_hist.resolve_sel(node, case["sel"])
